@@ -581,6 +581,72 @@ theorem usedCells_spec [DecidableEq α] (r : Rng α) :
   unfold usedCells
   rw [List.mem_filter]; simp
 
+/-! ## the remaining accessors: row indexing, indexed assignment, `headers` -/
+
+/-- `range[i]` (a row) inside the rectangle is row `i` of `rows()`; past the last row of a non-empty range it
+    panics; on an empty range every index gives the empty slice (width 0) -/
+theorem indexRow_spec (r : Rng α) (hi : Inv r) (i : Nat) :
+    (i < r.height → ∃ row, indexRow r i = .ok row ∧ (rows r)[i]? = some row ∧ row.length = r.width) ∧
+    (r.inner.length ≠ 0 → r.height ≤ i → ∃ m, indexRow r i = .panic m) ∧
+    (r.inner.length = 0 → indexRow r i = .ok []) := by
+  obtain ⟨_, r2, r3, _⟩ := rows_spec r hi
+  have hlen := hi.len
+  refine ⟨fun h => ?_, fun hne h => ?_, fun he => ?_⟩
+  · have hle : (i + 1) * r.width ≤ r.inner.length := by
+      rw [hlen]; exact Nat.mul_le_mul_right _ h
+    refine ⟨_, by unfold indexRow; rw [if_pos hle], r3 i h, ?_⟩
+    exact r2 _ (List.mem_of_getElem? (r3 i h))
+  · have hw := hi.width_eq hne
+    have hwpos : 0 < r.width := by omega
+    have : ¬ (i + 1) * r.width ≤ r.inner.length := by
+      rw [hlen]
+      have : r.height * r.width < (i + 1) * r.width := Nat.mul_lt_mul_of_pos_right (by omega) hwpos
+      omega
+    exact ⟨_, by unfold indexRow; rw [if_neg this]⟩
+  · have hw : r.width = 0 := by unfold Rng.width; rw [if_pos he]
+    unfold indexRow
+    rw [hw, he]
+    simp
+
+/-- `range[(i, j)] = v` inside the rectangle IS `set_value` at the absolute position of that cell — so it changes
+    exactly that cell and nothing else (`setValue_spec`) and keeps the rectangle; outside it panics -/
+theorem indexSet_eq_setValue (r : Rng α) (hi : Inv r) (i j : Nat) (v : α) (h1 : i < r.height) (h2 : j < r.width) :
+    indexSet r i j v = setValue r (r.sr + i) (r.sc + j) v := by
+  have hne : r.inner.length ≠ 0 := by
+    intro he; unfold Rng.height at h1; rw [if_pos he] at h1; omega
+  have hh := hi.height_eq hne
+  have hw := hi.width_eq hne
+  have ho := hi.ord hne
+  have hlen := hi.len
+  have hidx : i * r.width + j < r.inner.length := by
+    rw [hlen]
+    calc i * r.width + j < i * r.width + r.width := by omega
+      _ = (i + 1) * r.width := by rw [Nat.add_mul, Nat.one_mul]
+      _ ≤ r.height * r.width := Nat.mul_le_mul_right _ h1
+  have hg : grow r (r.sr + i) (r.sc + j) = r := by
+    unfold grow
+    rw [if_neg (by omega), if_neg (by omega)]
+  unfold indexSet setValue
+  rw [if_neg (by simp [h1, h2]), if_pos hidx, if_neg (by omega), if_neg hne, if_neg (by omega), hg]
+  simp only [Nat.add_sub_cancel_left]
+  rw [if_pos hidx]
+
+theorem indexSet_out_of_bounds (r : Rng α) (i j : Nat) (v : α) (h : ¬ (j < r.width ∧ i < r.height)) :
+    indexSet r i j v = .panic "index out of bounds" := by
+  unfold indexSet; rw [if_pos h]
+
+/-- `headers()` is the first row of `rows()`: `None` exactly for the empty range, otherwise `width` cells -/
+theorem firstRow_spec (r : Rng α) (hi : Inv r) :
+    (r.inner.length = 0 → firstRow r = none) ∧
+    (r.inner.length ≠ 0 → ∃ row, firstRow r = some row ∧ (rows r)[0]? = some row ∧ row.length = r.width) := by
+  obtain ⟨r1, r2, _, _⟩ := rows_spec r hi
+  refine ⟨fun he => ?_, fun hne => ?_⟩
+  · unfold firstRow rows; rw [if_pos he]; rfl
+  · have hh := hi.height_eq hne
+    have hpos : 0 < (rows r).length := by rw [r1]; omega
+    obtain ⟨row, tl, hrt⟩ := List.exists_cons_of_length_pos hpos
+    refine ⟨row, by unfold firstRow; rw [hrt]; rfl, by rw [hrt]; rfl, r2 row (by rw [hrt]; exact List.mem_cons_self ..)⟩
+
 /-! ## the iterators are double-ended: consumption from both ends, in any interleaving
 
     `Cells`, `UsedCells` and `Rows` implement `DoubleEndedIterator`. For ANY sequence of `next` / `next_back`
